@@ -37,6 +37,9 @@ type initCase struct {
 	Op    op     `json:"op"`
 	Proxy int    `json:"proxy"`
 	Delta bool   `json:"delta"`
+	// Reconnect (C05): the connection that initialises during the push is a reconnecting one, presenting
+	// what an earlier connection of the same proxy retained
+	Reconnect bool `json:"reconnect,omitempty"`
 }
 
 func (c initCase) String() string {
@@ -64,10 +67,18 @@ func runInitWindow(t *testing.T, ic initCase) (fs []finding, fired bool) {
 				}
 			}
 		}
-		env.ServiceDiscovery = w
 		c := newClient(proxies[ic.Proxy], ic.Delta)
+		if ic.Reconnect {
+			c1 := newClient(proxies[ic.Proxy], ic.Delta)
+			c1.connect(srv, false, -1)
+			srv.quiesce(c1)
+			c1.disconnect()
+			synctest.Wait()
+			c.retainFrom(c1)
+		}
+		env.ServiceDiscovery = w
 		w.armed = true
-		c.connect(srv, false, -1)
+		c.connect(srv, ic.Reconnect, -1)
 		st = st.after(ic.Op)
 		synctest.Wait()
 		for i := 0; fired && !windowClosed && i < 1000; i++ {
@@ -94,9 +105,20 @@ func runInitWindow(t *testing.T, ic initCase) (fs []finding, fired bool) {
 }
 
 func TestC02e(t *testing.T) {
-	env := engine.GetEnv()
 	res := engine.NewResult("C02", "e-push-during-connection-init")
 	res.Rule = "for every operation of the alphabet from the rich/scoped base, every proxy and both protocol flavours: the operation's whole push (store change, debounce, snapshot, fan-out) runs while a new connection of that proxy is between registration and the end of its initialisation; afterwards the connection must hold what a new connection receives; non-trivial = case in which the window was reached"
+	initWindowTest(t, res, false)
+}
+
+// TestC05e: the same window for a reconnecting proxy (C05: "fully resynchronised ... whatever happened while it was away" includes a change published while it is being registered again).
+func TestC05e(t *testing.T) {
+	res := engine.NewResult("C05", "e-reconnect-during-push")
+	res.Rule = "for every operation of the alphabet from the rich base, every proxy and both protocol flavours: a proxy that was connected and synchronised reconnects, presenting what it retained; the operation's whole push runs while the new connection is between registration and the end of its initialisation; afterwards it must hold what a new connection receives; non-trivial = case in which the window was reached"
+	initWindowTest(t, res, true)
+}
+
+func initWindowTest(t *testing.T, res *engine.Result, reconnect bool) {
+	env := engine.GetEnv()
 	defer res.Write(t, env)
 	if env.Replay != "" {
 		var ic initCase
@@ -129,7 +151,7 @@ func TestC02e(t *testing.T) {
 						res.Cap("deadline")
 						return
 					}
-					ic := initCase{b, o, pi, delta}
+					ic := initCase{b, o, pi, delta, reconnect}
 					fs, fired := runInitWindow(t, ic)
 					res.Evaluations++
 					res.Traces++
